@@ -209,3 +209,22 @@ def run_case(c):
     from .c07 import _reclass_squeeze
     viol = _reclass_squeeze(viol, res, want, site, True, 0.0)
     return Outcome(key, nt, 'N=%s' % res.N, violations=viol)
+
+
+# ------------------------------------------------------------------------------------------------ second tier: histories
+# every history of depth 2 (3 thorough) whose last event belongs to this property, on the explicit-state explorer; the last
+# event is compared with its dense definition on the operands as they are in that state (ttmc/history_tier.py)
+from .. import history_tier as _ht
+
+_cases_e1, _run_case_e1 = cases, run_case
+
+
+def cases(tier, seed):
+    yield from _cases_e1(tier, seed)
+    yield from _ht.cases(PROPERTY, tier)
+
+
+def run_case(c):
+    if c.get('g') == 'E2':
+        return _ht.run_case(PROPERTY, c)
+    return _run_case_e1(c)
